@@ -45,6 +45,58 @@ def both(fn):
     return f
 
 
+def profile_diff(fn, name=None):
+    """C16 form of a dev-and-release guard rule.  The property is that debug and release builds *agree*: a guard or assertion
+    that neither profile has is not C16's finding (C14 and the owning property report it); one that only the dev build has
+    (debug_assert!) is.  The rule is run as usual on both profiles (debug-only assertions do not count as guards) and once more
+    on the dev facts with debug-only assertions counted: a finding of the strict runs that the lenient run does not have
+    exists only because its guard is debug-only."""
+    from . import core, scope
+
+    def f(ctx, res):
+        strict = []
+        n_ok = 0
+        for cfg in ("all", "all-rel"):
+            n = len(res.findings)
+            try:
+                fn(ctx, res, config=cfg)
+                n_ok += 1
+            except core.SkipConfig:
+                pass
+            strict += res.findings[n:]
+            del res.findings[n:]
+        # lenient run: on a scratch result (its instances are not obligations of the check)
+        lenient = core.Result()
+        r3.COUNT_DEBUG_GUARDS[0] = True
+        try:
+            fn(ctx, lenient, config="all")
+        except core.SkipConfig:
+            lenient = None
+        finally:
+            r3.COUNT_DEBUG_GUARDS[0] = False
+        common = {x.fullkey() for x in lenient.findings} if lenient is not None else set()
+        seen = set()
+        for x in strict:
+            k = x.fullkey()
+            if k in seen:
+                res.obligations -= 1
+                continue
+            seen.add(k)
+            if scope.engine_level(x) or k not in common:
+                res.findings.append(x)
+            else:
+                res.obligations -= 1
+                res.note("not attributed to C16: %s at %s - neither profile has this guard (the profiles agree; C14 owns the missing guard)" % (x.rule, x.key))
+        res.clause("C16 reads the guard rules differentially: a finding is a configuration dependence only if a debug-only assertion would have discharged it")
+
+    f.__name__ = name or (fn.__name__ + "_profile_diff")
+    return f
+
+
+def _guard_table(ctx, res, config="all"):
+    r3.check_guard_table(ctx, res, config=config, roles=None)
+
+
 PORTABLE = set()
 
 
@@ -136,15 +188,15 @@ PROPS = {
         "monty_modpow; abstract interpretation of the BigInt wrappers over the sign domain; must-pass-through canonicalisation analysis",
     },
     "C06": {
-        "clauses": [both(r3.check_radix), r3.check_parse_validation_order, r7.check_bases, r7.check_formatters, r9.check_sign_readers, r1.check_biguint_normal_form, count_ok("biguint/convert.rs", "bigint/convert.rs", floor=100), selftest("R2-count-narrowed")],
+        "clauses": [r3.check_parse_validation_order, r7.check_bases, r7.check_formatters, r9.check_sign_readers, r1.check_biguint_normal_form, count_ok("biguint/convert.rs", "bigint/convert.rs", floor=100), selftest("R2-count-narrowed")],
         "not_decided": "bit-regrouping and chunked Horner/division arithmetic, the accept/reject language of the digit classifier beyond the validation order, padding "
         "(delegated to core::fmt)",
-        "level_text": "Decides: all 14 radix-taking entry points (7 per type) enforce their documented range - 2..=36 for text, 2..=256 for digit vectors - by a non-debug "
-        "assertion of their own or of the callee they forward the radix to, constants read from the MIR comparison operands, in dev and release builds; text "
+        "level_text": "Decides: text "
         "parsing strips the sign before the empty / leading-underscore rejections; both const-evaluated per-radix (base, power) tables are exactly the largest "
         "fitting powers for every radix 3..255; the ten formatter impls pass the right (non-negativity flag, prefix, radix, magnitude text, upper-casing) to "
-        "Formatter::pad_integral; BigInt text export reads the sign; parsed values escape in canonical form.",
-        "technique": T_R3 + " with interprocedural radix-range summaries; const-evaluated static tables read from the compiler; MIR argument-provenance tables",
+        "Formatter::pad_integral; BigInt text export reads the sign; parsed values escape in canonical form; no digit count is truncated by a cast. (The radix-range "
+        "assertions are a failure-case rule: a radix outside 2..=36 is not an input of this property, so that rule is reported under C14, C15 and - differentially - C16.)",
+        "technique": T_R3 + " (validation order); const-evaluated static tables read from the compiler; MIR argument-provenance tables; normal-form escape analysis",
     },
     "C07": {
         "clauses": [guards("shift"), fam("Shl", "Shr", "BitAnd", "BitOr", "BitXor"), r5check.check_helpers, r5check.check_shifts, r5check.check_bitops, count_ok("biguint/shift.rs", "bigint/shift.rs", "biguint/bits.rs", "bigint/bits.rs", "biguint.rs", "bigint.rs", floor=100), r1.check_biguint_normal_form, selftest("R2-count-narrowed")],
@@ -264,7 +316,7 @@ PROPS = {
         "technique": "inline-asm template data-flow analysis (reaching definitions over the instruction list) + MIR def-use/dominance at the call sites; closed-world unsafe inventory",
     },
     "C16": {
-        "clauses": [r6.check_matrix, r6.check_feature_stability, r6.check_cfg_taint, r3.check_inventory, guards(), both(r3.check_underflow_asserts), both(r3.check_radix), both(r3.check_div_guards), r3.check_operand_overflow, selftest("R3c-operand-overflow"), r3.check_float_guess_guard],
+        "clauses": [r6.check_matrix, r6.check_feature_stability, r6.check_cfg_taint, r3.check_inventory, profile_diff(_guard_table, "r3_guards_profile_diff"), profile_diff(r3.check_underflow_asserts), profile_diff(r3.check_radix), profile_diff(r3.check_div_guards), r3.check_operand_overflow, selftest("R3c-operand-overflow"), r3.check_float_guess_guard],
         "not_decided": "equality of results where it rests on arithmetic (Newton fixpoint independent of the guess; float helper agreement; absence of overflow so that "
         "overflow-check and wrapping builds agree); the 32-bit-digit variants of the code are analysed through an i686 build (-Zbuild-std): one configuration in the quick tier, all in the thorough tier",
         "level_text": "Decides: all ten documented feature configurations type-check (and the i686 / 32-bit-digit build does); enabling serde/rand/quickcheck/arbitrary "
@@ -287,7 +339,7 @@ PROPS = {
         "must-pass-through canonicalisation; cross-configuration MIR fingerprints",
     },
     "C19": {
-        "clauses": [r5check.check_helpers, r5check.check_constructors, r5check.check_arithmetic({"Mul"}, 15), r5check.check_conversions],
+        "clauses": [r5check.check_helpers, r5check.check_constructors, r5check.check_conversions],
         "not_decided": "is_zero <=> empty digit vector relies on the canonical-form invariant (R1, claimed under C04); from_biguint's own body (calls into digit-level code) "
         "is used as a model, its table is checked separately",
         "level_text": "Decides essentially the whole property, because it is finite: an abstract interpreter enumerates every sign case (and order / zero-ness case on demand) of "
